@@ -8,7 +8,7 @@ BIN=$HOME/.rustup/toolchains/nightly-x86_64-unknown-linux-gnu/lib/rustlib/x86_64
 mkdir -p $COV/verif/evidence $COV/verif/replays $COV/prof
 rm -f $COV/prof/*.profraw
 cp /verif/known_findings.json /verif/properties.jsonl $COV/verif/
-(cd /verif/harness && CARGO_NET_OFFLINE=true CARGO_TARGET_DIR=$COV/target RUSTFLAGS="--cfg melstf_verif -C instrument-coverage" cargo +nightly build --release --offline 2>&1 | tail -1)
+(cd /verif/harness && LLVM_PROFILE_FILE=$COV/build-%p.profraw CARGO_NET_OFFLINE=true CARGO_TARGET_DIR=$COV/target RUSTFLAGS="--cfg melstf_verif -C instrument-coverage" cargo +nightly build --release --offline 2>&1 | tail -1)
 for n in 01 02 03 04 05 06 07 08 09 10 11 12 13 14 15 16 17 18 19 20; do
     c=C$n
     (cd $COV && LLVM_PROFILE_FILE=$COV/prof/$c-%p.profraw MCHECK_VERIF_DIR=$COV/verif ./target/release/mcheck $c --tier $TIER 2>&1 | tail -1)
